@@ -18,12 +18,13 @@ import (
 type recConn struct {
 	writes [][]byte
 	fail   bool
+	failAt map[int]bool // per-write failures (index of the write)
 }
 
 func (c *recConn) Read([]byte) (int, error) { return 0, io.EOF }
 func (c *recConn) Write(b []byte) (int, error) {
 	c.writes = append(c.writes, append([]byte(nil), b...))
-	if c.fail {
+	if c.fail || c.failAt[len(c.writes)-1] {
 		return 0, errors.New("write failed")
 	}
 	return len(b), nil
@@ -123,6 +124,25 @@ func genFrames(g *G, valid bool) []can.Frame {
 			add(0x800+uint32(g.R.Intn(1<<20)), false)
 			add(0x20000000<<uint(g.R.Intn(3))|uint32(g.R.U64())&0x1fffffff, true)
 		}
+	}
+	return out
+}
+
+// genFramesSmall: n valid frames with independent lengths, payloads (all 8 bytes set) and flags
+func genFramesSmall(g *G, n int) []can.Frame {
+	var out []can.Frame
+	for i := 0; i < n; i++ {
+		ext := g.R.Bool()
+		id := uint32(g.R.Intn(0x800))
+		if ext {
+			id = uint32(g.R.U64()) & 0x1fffffff
+		}
+		var d can.Data
+		d.UnpackLittleEndian(g.R.U64())
+		if g.R.Intn(4) == 0 {
+			d = can.Data{}
+		}
+		out = append(out, can.Frame{ID: id, Length: uint8(g.R.Intn(9)), Data: d, IsRemote: g.R.Intn(4) == 0, IsExtended: ext})
 	}
 	return out
 }
@@ -291,6 +311,21 @@ func genC07(g *G) {
 			g.Tag("error-injection")
 		}
 	}
+	// one Transmitter, a history of frames (lengths and payloads varying), some writes failing
+	for rep := 0; rep < g.N(150, 3000); rep++ {
+		pool := genFramesSmall(g, 2+g.R.Intn(7))
+		var toks []string
+		for i, f := range pool {
+			ok := "1"
+			if g.R.Intn(6) == 0 {
+				ok = "0"
+			}
+			_ = i
+			toks = append(toks, strings.ReplaceAll(frameArgs(f), " ", ",")+","+ok)
+		}
+		g.Emit("txq %s", strings.Join(toks, ";"))
+		g.Tag("tx-history")
+	}
 	// transmitter: one 16-byte write; interceptor only after success
 	for _, f := range genFrames(g, true)[:g.N(300, 3000)] {
 		g.Emit("txs %s 1", frameArgs(f))
@@ -406,6 +441,43 @@ func init() {
 			ic = "mismatch"
 		}
 		return fmt.Sprintf("n=%d err=%s icpt=%s frames=%s", n, e, ic, strings.Join(frames, ";"))
+	})
+	RegExec("txq", func(a []string) string {
+		c := &recConn{failAt: map[int]bool{}}
+		var frames []can.Frame
+		for i, tok := range strings.Split(a[0], ";") {
+			p := strings.Split(tok, ",")
+			frames = append(frames, frameOfArgs(p))
+			if p[5] != "1" {
+				c.failAt[i] = true
+			}
+		}
+		var icpt []can.Frame
+		t := socketcan.NewTransmitter(c, socketcan.TransmitterFrameInterceptor(func(f can.Frame) { icpt = append(icpt, f) }))
+		var oks []string
+		var want []can.Frame
+		for i, f := range frames {
+			err := t.TransmitFrame(context.Background(), f)
+			oks = append(oks, B(err == nil))
+			if !c.failAt[i] {
+				want = append(want, f)
+			}
+		}
+		ic := "ok"
+		if len(icpt) != len(want) {
+			ic = "mismatch"
+		} else {
+			for i := range want {
+				if icpt[i] != want[i] {
+					ic = "mismatch"
+				}
+			}
+		}
+		var parts []string
+		for _, w := range c.writes {
+			parts = append(parts, HexS(w))
+		}
+		return fmt.Sprintf("writes=%d bytes=%s icpt=%s n=%d ok=%s", len(c.writes), strings.Join(parts, ";"), ic, len(icpt), strings.Join(oks, ""))
 	})
 	RegExec("txs", func(a []string) string {
 		c := &recConn{fail: a[5] != "1"}
